@@ -16,6 +16,13 @@ def sh(cmd, cwd=None, timeout=3600, extra=None):
     p = subprocess.run(cmd, shell=True, cwd=cwd, env=e, capture_output=True, text=True, errors="replace", timeout=timeout)
     return p.returncode, (p.stdout + p.stderr)
 os.makedirs("/tmp/mutwork", exist_ok=True)
+# the checks run from a snapshot of the COMMITTED /verif, so that editing /verif meanwhile cannot disturb them
+SNAP = f"/tmp/mutwork/snap-{os.getpid()}"
+shutil.rmtree(SNAP, ignore_errors=True); os.makedirs(SNAP)
+rc, out = sh(f"git -C /verif archive HEAD | tar -x -C {SNAP} && cd {SNAP} && ./check setup")
+assert rc == 0, out
+import atexit
+atexit.register(lambda: shutil.rmtree(SNAP, ignore_errors=True))
 sh(f"git -C /repo worktree remove --force {work}")
 shutil.rmtree(work, ignore_errors=True)
 base = os.environ.get("MUT_BASE", "HEAD")  # a seeded change written against an older /repo commit can be tried there
@@ -57,7 +64,7 @@ try:
     meta["checks"] = {}
     for ck in checks:
         t0 = time.time()
-        rc, out = sh(f"./check {ck} quick", cwd="/verif", extra={"VERIF_REPO": work, "VERIF_OUT": "/tmp/mutwork/out-" + name}, timeout=3000)
+        rc, out = sh(f"./check {ck} quick", cwd=SNAP, extra={"VERIF_REPO": work, "VERIF_OUT": "/tmp/mutwork/out-" + name}, timeout=3000)
         viol = [l for l in out.splitlines() if l.startswith("VIOLATION")]
         first = ""
         lines = out.splitlines()
